@@ -92,6 +92,16 @@ def _mk(engine, shape, k, letters, rebind_alpha=False, budget=200, **kw):
                      models=("rf", "np", "sp", "mp"), setup=_setup(letters if rebind_alpha else None))
 
 
+def _probe_scale(engine, **kw):
+    def run():
+        import pyrepseq
+        seqs, planted = hc.scale_case()
+        got = getattr(pyrepseq, engine)(list(seqs), max_edits=1, **kw)
+        ok, detail = hc.compare_triplets(got, hc.scale_self_expected(planted))
+        return ok, f"[scale probe] {engine}({kw}) on {len(seqs)} sequences (neighbours planted at positions {sorted(planted.values())}): {detail}"
+    return run
+
+
 def conditions(tier):
     out = []
     # hash_based: alphabet constant rebound to the sub-alphabet
@@ -133,4 +143,8 @@ def conditions(tier):
             out.append(_mk("kdtree", (3, 3), 3, letters, budget=2400))
             out.append(_mk("kdtree", (2, 2, 2), 2, letters, budget=2400))
         out.append(_mk("kdtree", (4, 3), 2, "AY", budget=2400))
+    out.append(hc.probe_condition("C04/probe/hash_based/70000-sequences", "hash_based, max_edits=1, 70 006 sequences with six planted neighbour pairs: exact triplet set",
+                                  _probe_scale("hash_based")))
+    out.append(hc.probe_condition("C04/probe/kdtree/70000-sequences", "kdtree, max_edits=1, 70 006 sequences with six planted neighbour pairs: exact triplet set",
+                                  _probe_scale("kdtree")))
     return out
